@@ -4,8 +4,8 @@ from . import ref
 def _cfg(cfg):
     if isinstance(cfg, dict):
         return cfg
-    from cardutil.config import config
-    return config['bit_config']
+    from . import packaged
+    return packaged.bit_config()
 
 
 def replay_roundtrip(msg, enc, hexbm, cfg):
